@@ -287,7 +287,7 @@ def run(tier, seed):
             nexh += 1
             handle(cfg, actions)
     rep.notes["exhaustively_enumerated_schedules"] = nexh
-    for _ in range(600 if tier == "quick" else 20000):
+    for _ in range(600 if tier == "quick" else 60000):
         cfg = gen_cfg(rng)
         handle(cfg, random_schedule(cfg, rng, 0.1))
     # the decorating manager instance may also be used directly in `async with` (before / around calls)
